@@ -19,7 +19,7 @@ From Coq Require Import List NArith Bool.
 From NV Require Import Bgzf.Vpos Bgzf.VposProofs Bgzf.Gzi Bgzf.ReaderOps Bgzf.FlatRef Bgzf.ReaderOpsProofs
   Bgzf.ReaderTellProofs Bgzf.WriterTell Bgzf.GziBs Bgzf.GziBsProofs Bgzf.SeekBytes.
 From NV Require Bgzf.Frame Bgzf.Writer Bgzf.WriterTellProofs Bgzf.WriterTellRows Bgzf.Reader Bgzf.Inflate
-  Bgzf.SeekBytesProofs Bgzf.SeekBytesBoundary.
+  Bgzf.SeekBytesProofs Bgzf.SeekBytesBoundary Sinks.Sink Bgzf.WriterTellSink Bgzf.WriterTellSinkProofs Bgzf.SeekBytesHistProofs.
 Import ListNotations.
 Open Scope N_scope.
 
@@ -397,3 +397,93 @@ Theorem c02_failed_read_tells_same_position : forall s n s' e,
    exists p sz, s_blk s' = mkBlk p sz 0 0 /\ s_position s' = p + sz).
 Proof. exact (SeekBytesProofs.read_b_err Inflate.inflate). Qed.
 Print Assumptions c02_failed_read_tells_same_position.
+
+(* WRITER OVER A FAILING DESTINATION (wave 9).  The writer model of NV.Bgzf.WriterTellSink runs over
+   C14's sink with a fault script (any mix of full / short writes, Interrupted, failures of any
+   kind at any inner write call); the script's calls GO ON after a call returned Err.  Whatever
+   happened in between: if the ending (finish(), or flush() + into_inner()) returns Ok and the
+   file left behind holds exactly position() bytes - i.e. no failed call left part of a frame in
+   it - then the position told at ANY point of the history, in particular right after a call that
+   returned Err (when the staging buffer still holds the bytes of the frame that could not be
+   written, and those a failed write() had already taken), names in that file the next byte
+   taken: a fresh reader sought there succeeds and reads to the end exactly the bytes taken from
+   that point on.  No call panics, whatever the script (p1 = p2 = false).
+   For the writer as pinned (fxe = false) the premise excludes try_finish from the history (the
+   ending may be finish()): see c02_writer_failed_try_finish_refuted. *)
+Theorem c02_writer_tell_failing_sink : forall (deflate : N -> list N -> list N) (fxe : bool) (lvl : N),
+  (forall x, Frame.lenN x <= Writer.MAX_BUF_SIZE ->
+             Frame.lenN (deflate 0 x) <= Writer.MAX_COMPRESSED_SIZE) ->
+  forall script ops1 ops2 fin n st1 obs1 D1 p1 st2 obs2 D2 p2 stf,
+  fxe = true \/ Forall WriterTellSinkProofs.not_tf (ops1 ++ ops2) ->
+  WriterTellSink.f_run_ops deflate fxe lvl (WriterTellSink.f_init script) ops1 = (st1, obs1, D1, p1) ->
+  WriterTellSink.f_run_ops deflate fxe lvl st1 ops2 = (st2, obs2, D2, p2) ->
+  WriterTellSink.f_end deflate fxe lvl fin st2 = (stf, WriterTellSink.FOk tt) ->
+  let sb := Sink.sbytes (WriterTellSink.f_snk stf) in
+  Frame.lenN sb = WriterTellSink.f_pos stf ->
+  let D := D1 ++ D2 in
+  let F := sink_file (S (length sb)) sb D in
+  Frame.lenN sb <= Writer.MAX_COMPRESSED_POSITION -> 0 < n ->
+  p1 = false /\ p2 = false /\
+  exists v, WriterTellSink.f_vpos st1 = Frame.Ok v /\
+    snd (seek true F (init F) v) = Ok v /\
+    snd (read_all true (fst (seek true F (init F) v)) n) = Ok (skipn (length D1) D).
+Proof. exact WriterTellSinkProofs.writer_tell_sink. Qed.
+Print Assumptions c02_writer_tell_failing_sink.
+
+(* the pinned try_finish adds 28 to the position although the EOF block was NOT written: a
+   destination refuses one write (nothing accepted), then accepts everything; try_finish() -> Err,
+   write_all [1;2;3] -> Ok, finish() -> Ok.  The file is exactly one data frame + EOF block (57
+   bytes), but the position told before the write_all is (28, 0) - inside the data frame - and
+   position() ends at 85; with the repair (fxe = true) the same history tells (0, 0) and 57. *)
+Theorem c02_writer_failed_try_finish_refuted :
+  WriterTellSinkProofs.rf_run false =
+  ([(WriterTellSink.FErr 5, 0)], false, [WriterTellSink.FOk None], false, WriterTellSink.FOk tt, true,
+   Frame.Ok (pack 28 0), Unmodelled, 85, 57) /\
+  WriterTellSinkProofs.rf_run true =
+  ([(WriterTellSink.FErr 5, 0)], false, [WriterTellSink.FOk None], false, WriterTellSink.FOk tt, true,
+   Frame.Ok (pack 0 0), Ok (pack 0 0), 57, 57).
+Proof.
+  split; [exact WriterTellSinkProofs.writer_tell_sink_pinned_refuted
+         | exact WriterTellSinkProofs.writer_tell_sink_repaired_example].
+Qed.
+Print Assumptions c02_writer_failed_try_finish_refuted.
+
+(* READER STATE PAST A SEEK (wave 9): SeekBytes.seek_b is Reader::seek on the byte-level reader
+   state (bytes ahead of the inner cursor, Reader::position, the block), so that histories go on
+   after a failed seek and after a seek onto bytes that merely parse as a frame (kind hrs).
+   (1) what a seek inside a history returns and tells is exactly what the one-seek model says:
+       c02_seek_succeeds_iff / c02_seek_total / c02_seek_beyond_end /
+       c02_seek_bytes_is_seek_at_boundaries therefore hold for every seek of a history *)
+Theorem c02_seek_in_history_is_seek_bytes : forall fb s v,
+  (snd (seek_b Inflate.inflate fb s v), blk_vpos (s_blk (fst (seek_b Inflate.inflate fb s v))))
+  = seek_bytes Inflate.inflate fb (s_blk s) v.
+Proof. exact (SeekBytesHistProofs.seek_b_seek_bytes Inflate.inflate). Qed.
+Print Assumptions c02_seek_in_history_is_seek_bytes.
+
+(* (2) a FAILED seek leaves the previous block: untouched if anything of it is still readable -
+       and then the following reads are served from it first, although the inner stream has
+       moved; if it was exhausted the position told is unchanged (or advanced over empty frames) *)
+Theorem c02_failed_seek_state : forall fb s v s' e,
+  seek_b Inflate.inflate fb s v = (s', Err e) ->
+  (k_cur (s_blk s') < k_len (s_blk s') ->
+   s_blk s' = s_blk s /\
+   forall n, snd (read_b Inflate.inflate s' n) = Ok (N.min n (k_len (s_blk s) - k_cur (s_blk s)))) /\
+  (k_len (s_blk s) <= k_cur (s_blk s) ->
+   blk_vpos (s_blk s') = blk_vpos (s_blk s) \/
+   exists p sz, s_blk s' = mkBlk p sz 0 0 /\ s_position s' = p + sz).
+Proof.
+  intros fb s v s' e H. split.
+  - intros Hlt. exact (SeekBytesHistProofs.failed_seek_serves_previous_block Inflate.inflate fb s v s' e H Hlt).
+  - exact (proj2 (SeekBytesHistProofs.seek_b_err Inflate.inflate fb s v s' e H)).
+Qed.
+Print Assumptions c02_failed_seek_state.
+
+(* (3) a seek and all the reads after it see the file only through the bytes from the block
+       offset on: a seek onto an `accidental frame` (bytes inside a frame that parse as a frame)
+       and the history after it are those of ANY file with the same bytes from that offset on *)
+Theorem c02_seek_then_reads_depend_on_suffix : forall fb fb' s v ns,
+  bytes_from fb (vcomp v) = bytes_from fb' (vcomp v) ->
+  hops_b Inflate.inflate fb s (BSeek v :: map BRead ns)
+  = hops_b Inflate.inflate fb' s (BSeek v :: map BRead ns).
+Proof. exact (SeekBytesHistProofs.seek_then_reads_suffix Inflate.inflate). Qed.
+Print Assumptions c02_seek_then_reads_depend_on_suffix.
